@@ -39,13 +39,46 @@ theorem handleDcepSt_safe (s : St) (sid : Nat) {Q b n} (hs : s.Ok)
     apply safe_ite <;> intro h2
     · apply safe_pure; exact h _ _ _ rfl
     · split
-      · apply safe_pure
-        apply h
-        unfold St.emit
-        repeat' split
-        all_goals rfl
+      · apply safe_ite <;> intro hcap
+        · apply safe_pure; exact h _ _ _ rfl
+        · apply safe_pure
+          apply h
+          unfold St.emit
+          repeat' split
+          all_goals rfl
       · apply safe_pure; exact h _ _ _ rfl
   · apply safe_pure; exact h _ _ _ rfl
+
+/-- channels are created only here, and never beyond `MAX_DATA_CHANNELS` -/
+theorem handleDcepSt_chans (s : St) (sid : Nat) {Q b n}
+    (h : ∀ s' b' n', s'.chans.length ≤ max s.chans.length c07MaxDataChannels → Q s' b' n') : safe T (handleDcepSt s sid) Q b n := by
+  unfold handleDcepSt
+  apply safe_bind; apply safe_remaining
+  apply safe_ite <;> intro h0
+  · apply safe_pure; exact h _ _ _ (by omega)
+  apply safe_bind; apply safe_peek (by omega); intro mt _
+  apply safe_ite <;> intro h1
+  · apply safe_bind; apply safe_restSlice; intro body _
+    apply safe_bind
+    apply dcepAttempt_safe
+    intro r n'
+    apply safe_ite <;> intro h2
+    · apply safe_pure; exact h _ _ _ (by omega)
+    · split
+      · apply safe_ite <;> intro hcap
+        · apply safe_pure; exact h _ _ _ (by omega)
+        · apply safe_pure
+          apply h
+          unfold St.emit
+          split
+          · omega
+          · rename_i hnc
+            have : ¬ (s.chans.length ≥ c07MaxDataChannels) := by
+              intro hge; apply hcap; exact ⟨hnc, hge⟩
+            show (sid :: s.chans).length ≤ _
+            rw [List.length_cons]; omega
+      · apply safe_pure; exact h _ _ _ (by omega)
+  · apply safe_pure; exact h _ _ _ (by omega)
 
 attribute [local irreducible] handleDcepSt
 
